@@ -370,10 +370,11 @@ func TestVerifC17Histories(t *testing.T) {
 	thorough := os.Getenv("VERIF_TIER") == "thorough"
 	type cfg struct {
 		keys, kinds, maxLen int
+		populated           bool // start from a graph that already holds every node (under its first file version)
 	}
-	cfgs := []cfg{{3, 2, 3}, {2, 1, 4}}
+	cfgs := []cfg{{3, 2, 3, false}, {2, 1, 4, false}, {3, 1, 3, true}}
 	if thorough {
-		cfgs = []cfg{{3, 2, 3}, {3, 1, 4}, {2, 1, 5}}
+		cfgs = []cfg{{3, 2, 3, false}, {3, 1, 4, false}, {2, 1, 5, false}, {3, 2, 3, true}, {3, 1, 4, true}}
 	}
 	var cases int64
 	fails := map[string]string{}
@@ -391,6 +392,11 @@ func TestVerifC17Histories(t *testing.T) {
 			m := &vModel{nodes: map[int]bool{}, vers: map[int]int{}, edges: map[vEdge]bool{}, edgeVer: map[vEdge][2]int{}}
 			for i := range vIdents {
 				vKeys[i] = graphs.NewSymbolKey(vIdents[i], vVersions[0])
+			}
+			if c.populated {
+				for i := 0; i < vNumKeys; i++ {
+					vApply(g, m, vOp{op: 0, a: i, ver: 0})
+				}
 			}
 			for step, oi := range seq {
 				class, msg := vApply(g, m, ops[oi])
@@ -426,7 +432,7 @@ func TestVerifC17Histories(t *testing.T) {
 			}
 		}
 		rec()
-		fmt.Printf("VERIF-CASES: %d exhaustive (sequences of length <= %d over %d operations: %d keys x 2 file versions x %d edge kinds)\n", cases, c.maxLen, len(ops), c.keys, c.kinds)
+		fmt.Printf("VERIF-CASES: %d exhaustive (sequences of length <= %d over %d operations: %d keys x 2 file versions x %d edge kinds; start populated=%v)\n", cases, c.maxLen, len(ops), c.keys, c.kinds, c.populated)
 		cases = 0
 	}
 	var classes []string
